@@ -1361,3 +1361,37 @@ def type_queries(ctx, world):
         else:
             ctx.fail("A14.typeq", f"autograd.builtins.{name}", f"autograd.builtins.{name}:unboxing", loc, why, f"grad(grad(f)) / hessian of a function that branches on autograd.builtins.{name}(x, ...) of its traced argument")
     ctx.floor("A14.typeq replacements", n, 2)
+
+
+def traced_paths(ctx, world):
+    """A6.tracedpath - value transparency of the re-implemented wrappers: what a wrapper in numpy_wrapper.py computes
+    must not depend on WHETHER an operand is traced.  A branch taken only for boxed operands (isbox(x), isinstance(x,
+    Box)) is a second implementation of the function that plain calls - and every test that compares with NumPy on
+    plain inputs - never execute."""
+    ctx.describe("A6.tracedpath", "no function of autograd/numpy/numpy_wrapper.py decides its control flow on whether an operand is traced (isbox(..), isinstance(.., Box), type(..) in Box.types): traced and plain calls run the same code, traced leaves inside raw results are found by wrap_if_boxes_inside on the result's dtype")
+    m = world.repo.mod("autograd.numpy.numpy_wrapper")
+    bad = []
+    n = 0
+    for fq, fnode in m.functions():
+        if not isinstance(fnode, (ast.FunctionDef, ast.Lambda)):
+            continue
+        n += 1
+        for x in ast.walk(fnode):
+            if not isinstance(x, ast.Call):
+                continue
+            r = world.repo.resolve_expr(m, x.func) if isinstance(x.func, (ast.Name, ast.Attribute)) else None
+            q = r.qual if r is not None else ""
+            is_test = q == "autograd.tracer.isbox"
+            if q in ("builtins.isinstance", "autograd.builtins.isinstance", "builtins.issubclass") and len(x.args) == 2:
+                cands = x.args[1].elts if isinstance(x.args[1], (ast.Tuple, ast.List)) else [x.args[1]]
+                for c in cands:
+                    rc = world.repo.resolve_expr(m, c) if isinstance(c, (ast.Name, ast.Attribute)) else None
+                    if rc is not None and rc.kind == "repo" and rc.okind == "class" and any(k.qual == "autograd.tracer.Box" for k in class_mro(world.repo, rc)):
+                        is_test = True
+            if is_test:
+                bad.append((fq, x))
+    if not bad:
+        ctx.ob("A6.tracedpath", f"no wrapper branches on tracedness ({n} functions)", True, m.relpath, nontrivial=True)
+    for fq, x in bad:
+        ctx.fail("A6.tracedpath", f"{fq}:{norm_text(x)[:40]}", f"{fq}|tracedness-test", loc_of(m, x), f"`{norm_text(x)[:60]}` makes {fq.split('.')[-1]} take a different path when an operand is traced: the value computed under differentiation is produced by other code than the value of the plain call", "the same call under grad / make_jvp on operands for which the two implementations differ (e.g. ndim >= 3)")
+    ctx.floor("A6.tracedpath wrapper functions", n, 15)
